@@ -13,7 +13,7 @@ def p_c11(run):
     ck = _imports()
     scripts = G.gen_mix(run.rng, run.tier)
     builds = [("native", "gcc", "-O2", ""), ("native", "gcc", "-O0", ""), ("native", "clang", "-O2", ""),
-              ("native", "clang", "-O1", "msan")]
+              ("native", "clang", "-O1", "msan"), ("w32", "gcc", "-O2", ""), ("neutral32", "clang", "-O1", "msan")]
     if run.tier != "quick":
         builds += [("native", "gcc", "-O3", ""), ("native", "clang", "-O0", ""), ("w32", "gcc", "-O2", ""),
                    ("nosimd", "clang", "-O1", "msan"), ("neutral", "clang", "-O1", "msan"), ("w32", "clang", "-O1", "msan")]
@@ -79,7 +79,7 @@ def build_ct(run, cfg, cc, opt):
     return v2
 
 def p_c08(run):
-    builds = [("native", "gcc", "-O2"), ("nosimd", "gcc", "-O2")] if run.tier == "quick" else \
+    builds = [("native", "gcc", "-O2"), ("nosimd", "gcc", "-O2"), ("nosimd32", "gcc", "-O2"), ("neutral", "gcc", "-O1")] if run.tier == "quick" else \
              [("native", "gcc", "-O2"), ("native", "gcc", "-O3"), ("native", "clang", "-O2"), ("w32", "gcc", "-O2"),
               ("nosimd", "gcc", "-O2"), ("nosimd32", "gcc", "-O2"), ("neutral", "gcc", "-O2"), ("neutral32", "clang", "-O2"),
               ("noua", "gcc", "-O2"), ("nosimd", "gcc", "-O0")]
